@@ -53,6 +53,16 @@ CLAIMED = {
         "technique": "machine-checked proof in Rocq (Coq 8.16): serialiser/parser round trip as a corollary of the layout theorem + store-site inventory + differential correspondence check",
         "design": "DESIGN.md §7 C06",
     },
+    "C07": {
+        "text": "PARTIAL. Rocq theorems: the multimap laws of the operations the converters compose (C07_add_keeps_order, C07_set_keeps_others, C07_set_replaces_last: per-key value order is "
+                "preserved by add and by set on any other key; set replaces only the last value) and kernel-checked witnesses over the full container converter model (C07_pinned_refuted: the pinned "
+                "KillMode overwrite and its repair). The statement over every run of every converter (user entries keep value and per-key order, [Unit] defaults first, own section kept as "
+                "X-<name>, permitted managed choices kept, only NotifyAccess replaceable) is decided by the direct oracle on implementation output plus whole-service correspondence with the converter model; "
+                "a theorem over all converter runs is not yet proved.",
+        "note": "Trusted: Coq kernel; the converter model (validated by differential runs); the oracle's reading of the property in tools/props/C07.py; an empty last assignment of a managed setting counts as no choice (C15).",
+        "technique": "machine-checked proof in Rocq (Coq 8.16) of multimap laws + witnesses over the converter model; direct oracle and differential correspondence for the quantified statement",
+        "design": "DESIGN.md §7 C07",
+    },
     "C15": {
         "text": "Rocq theorems over the unit model: C15_list (list look-up = history after its last empty assignment, with C15_effective_is_suffix characterising that suffix "
                 "declaratively), C15_last (single-valued look-up = last effective assignment, none after an empty last one), C15_kv (name=value look-up = last value per name among the "
